@@ -23,6 +23,11 @@ type MSCase struct {
 	Cons  []MSCon `json:"cons"`
 	N     int     `json:"n"`   // declared variables (wcnf)
 	Top   int     `json:"top"` // 0: absent (wcnf)
+	// api route: the caller's data is used more than once.  Share: constraints whose coefficient vectors are equal are
+	// given ONE slice (as a caller who writes the vector once would); Twice: the problem is built twice from the same
+	// constraint values and the second one is solved.  maxsat.New copies what it is given, so neither may matter.
+	Share bool `json:"share,omitempty"`
+	Twice bool `json:"twice,omitempty"`
 }
 
 func (c *MSCase) norm() {
@@ -141,14 +146,38 @@ func genC04(r *rand.Rand, idx int, tier string) *MSCase {
 					}
 				}
 				k.AtLeast = r.Intn(sum + 2)
+				// now and then the coefficient vector of an earlier constraint again (over other literals)
+				if r.Intn(4) == 0 {
+					for _, prev := range c.Cons {
+						if len(prev.Coeffs) == len(k.Lits) && len(prev.Coeffs) > 0 {
+							k.Coeffs = append([]int{}, prev.Coeffs...)
+							c.Share = true
+							break
+						}
+					}
+				}
 			}
 		} else if k.Weight == 0 {
 			k.Weight = 1 + r.Intn(5) // wcnf: every clause has a weight >= 1; hardness comes from top
 		}
 		c.Cons = append(c.Cons, k)
 	}
+	if c.Route == "api" {
+		c.Twice = r.Intn(4) == 0
+	} else if r.Intn(8) == 0 {
+		// an empty clause: "<w> 0" is a legal line; soft it is a constant cost, hard it makes the instance unsatisfiable
+		pos := r.Intn(len(c.Cons) + 1)
+		k := MSCon{AtLeast: 1, Lits: []int{}, Weight: 1 + r.Intn(5)}
+		c.Cons = append(c.Cons[:pos:pos], append([]MSCon{k}, c.Cons[pos:]...)...)
+		if r.Intn(3) == 0 {
+			c.Cons = append(c.Cons, MSCon{AtLeast: 1, Lits: []int{}, Weight: 1 + r.Intn(5)})
+		}
+	}
 	if c.Route != "api" {
 		c.N = c.maxVar() + []int{0, 0, 1, 3}[r.Intn(4)]
+		if c.N < 1 {
+			c.N = 1
+		}
 		sum := 0
 		for _, k := range c.Cons {
 			sum += k.Weight
@@ -193,6 +222,7 @@ func runC04(e *emitter, idx int, c *MSCase) {
 		if c.Route == "api" {
 			names := map[string]bool{}
 			constrs := make([]maxsat.Constr, len(c.Cons))
+			shared := map[string][]int{}
 			for i, k := range c.Cons {
 				lits := make([]maxsat.Lit, len(k.Lits))
 				for j, l := range k.Lits {
@@ -204,9 +234,21 @@ func runC04(e *emitter, idx int, c *MSCase) {
 						lits[j] = maxsat.Var(name)
 					}
 				}
-				constrs[i] = maxsat.Constr{Lits: lits, Coeffs: cp(k.Coeffs), AtLeast: k.AtLeast, Weight: k.Weight}
+				coeffs := cp(k.Coeffs)
+				if c.Share && k.Coeffs != nil {
+					key := fmt.Sprint(k.Coeffs)
+					if prev, ok := shared[key]; ok {
+						coeffs = prev
+					} else {
+						shared[key] = coeffs
+					}
+				}
+				constrs[i] = maxsat.Constr{Lits: lits, Coeffs: coeffs, AtLeast: k.AtLeast, Weight: k.Weight}
 			}
 			pb := maxsat.New(constrs...)
+			if c.Twice {
+				pb = maxsat.New(constrs...)
+			}
 			mod, cst := pb.Solve()
 			if mod == nil {
 				verdict, cost = 2, -1
